@@ -16,7 +16,8 @@ PROP = dict(
                        "Comdex.C14.breaker_list_guarded", "Comdex.C14.esm_list_guarded", "Comdex.C14.cooloff_list_guarded",
                        "Comdex.C14.breaker_rejected_on_every_route", "Comdex.C14.esm_rejected_on_every_route",
                        "Comdex.C14.no_price_error_swallowed", "Comdex.C14.price_errors_never_overwritten",
-                       "Comdex.C14.price_errors_ignored_pinned", "Comdex.C14.price_guard_pinned",
+                       "Comdex.C14.price_errors_ignored_pinned", "Comdex.C14.twa_reads_test_own_activity",
+                       "Comdex.C14.twa_reads_pinned", "Comdex.C14.price_guard_pinned",
                        "Comdex.C14.sweeps_skip_controlled", "Comdex.C14.sweeps_pinned", "Comdex.C14.spec_lists"],
     harness_tests=["TestC14"],
     trusted_base=_TB,
@@ -26,7 +27,9 @@ PROP = dict(
     rule="each case is one real message delivered on a fresh branch of a populated app under one control setting (breaker on/off x ESM "
          "none / executed within cool-off / after cool-off x price feeds: all on, all off, and per price-reading handler every single "
          "needed asset off / all needed off / only the unneeded off (thorough: every non-empty subset), each as inactive and as missing "
-         "record; the needed set is the handler's observed read set of TWA records), or one real BeginBlocker sweep; distinct = "
+         "record; the needed set is the handler's observed read set of TWA records), one price-reading begin-block unit (V2 sweep of a "
+         "fixed-price-debt vault, auction price update / restart of both generations) under the same feed subsets, or one real "
+         "BeginBlocker sweep; distinct = "
          "distinct trace text, non-trivial = the same message succeeds with all controls clear",
 )
 
